@@ -3,7 +3,7 @@ from __future__ import annotations
 
 import isodate
 from phantom.re import FullMatch
-from pint import Quantity, UndefinedUnitError, Unit
+from pint import Quantity, Unit
 from pydantic import StrictBool, StrictBytes, StrictFloat, StrictInt, StrictStr
 from typing_extensions import TypeAlias
 
@@ -105,7 +105,11 @@ class PintParser(StringParser):
             raise ValueError(msg)
         try:
             return super().parse(tcls, v)
-        except UndefinedUnitError as e:
+        except (ValueError, TypeError):
+            raise
+        except Exception as e:
+            # e.g. UndefinedUnitError, but pint also raises various other
+            # exceptions (tokenizer errors, AttributeError) for malformed strings
             raise ValueError(str(e))
 
 
